@@ -23,6 +23,12 @@ def run(ctx):
                 for ca in (1, 2):
                     y = dict(s); y["client_auth"] = ca
                     out.append(y)
+                # a custom spec: the parrot's spec plus generic extensions the server may react to (an
+                # encrypted_client_hello extension of the inner form sent in the clear, an unknown extension)
+                if s["ver"] == 772:
+                    w = dict(s); w["no_reneg"] = True
+                    w["extra_exts"] = [{"id": 0xfe0d, "data": [1]}, {"id": 0xabcd, "data": [1, 2, 3]}]
+                    out.append(w)
                 # the same spec with renegotiation support off: there the client does export keying material
                 for ca in (0, 1, 2):
                     z = dict(s); z["client_auth"] = ca; z["no_reneg"] = True
